@@ -13,13 +13,13 @@ chk("C05", "model_checking",
 chk("C12", "model_checking",
     "All interleavings of puts, Discard/Finalize interruptions and reopen variants up to the bound are taken from the TLC graph of Store.tla and replayed; the final "
     "file is compared byte-for-byte with the uninterrupted real session and with the specification; refused reopens must leave the bytes untouched.",
-    "Exhaustive within: 3 blocks, interleavings <= 5 (7 thorough), 24 option sets, 4 root lists incl. duplicates, both stores. " + TB,
+    "Exhaustive within: 3 blocks (plain, empty-data, identity), interleavings <= 5 (6 thorough), 16 (24) option sets, 4 root lists incl. duplicates, 8 reopen variants, both stores. " + TB,
     "TLA+ spec (Reopen action) + TLC graph replay with byte comparison", "DESIGN.md §3 C12")
 chk("C14", "model_checking",
     "Reader.tla models the block reader's incremental offset bookkeeping; TLC checks it against the closed-form scan offsets for every bounded archive and every "
     "Next/SkipNext string, and every maximal behaviour is replayed on the real BlockReader over three source kinds with CID sequence, metadata, bytes at "
     "SourceOffset and source consumption compared.",
-    "Exhaustive within: <= 3 sections over 7 (12 thorough) blocks, 3 root lists, 4 containers, all choice strings. " + TB,
+    "Exhaustive within: <= 3 sections over 8 (13 thorough) blocks, 5 root lists incl. identity-CID roots, 4 containers, all choice strings. " + TB,
     "TLA+ state machine of BlockReader + TLC behaviours replayed on the real reader", "DESIGN.md §3 C14")
 chk("C02", "fault_enumeration",
     "Every proper prefix and every data/digest byte corruption of every TLC-enumerated archive is run through every verifying/scanning reader; TLC validates each recorded "
@@ -29,7 +29,7 @@ chk("C02", "fault_enumeration",
 chk("C03", "model_checking",
     "ArchiveCases.tla gives, for every bounded archive, the exact offset set every index kind must report for 13 probe CIDs; all index generation/loading entry points over "
     "three source kinds and the option matrix are compared with it and with the bytes at each offset.",
-    "Exhaustive within: <= 3 sections, two block alphabets, 4 root lists, 7 containers. " + TB,
+    "Exhaustive within: <= 3 sections, two block alphabets, 5 root lists, 7 containers. " + TB,
     "TLA+ operators as oracle, TLC-enumerated archives replayed into index generation", "DESIGN.md §3 C03")
 chk("C07", "model_checking",
     "ArchiveOps.tla defines read-only answers as functions of the sequential scan; every bounded archive x option set x front-end (NewReadOnly, OpenReadOnly, OpenReadable, supplied index) is queried "
@@ -53,12 +53,12 @@ chk("C11", "model_checking",
 chk("C10", "model_checking",
     "Transform.tla models wrap / extract / replace-roots as actions on an abstract file; TLC checks payload invariance and extract(wrap(x)) = x over the complete bounded behaviour tree, and every "
     "behaviour is replayed on real files with all bytes compared against the reference encoding after every step (and unchanged bytes on refusal).",
-    "Exhaustive within: files <= 2 sections over 6 blocks, 4 root lists, 5 containers, 11 operations, behaviours of 2 (3) steps. " + TB,
+    "Exhaustive within: files <= 2 sections over 6 blocks, 5 root lists, 6 containers incl. a null-padded CARv1, 11 operations, behaviours of 2 (3) steps. " + TB,
     "TLA+ action spec + TLC behaviours replayed on real files with byte comparison", "DESIGN.md §3 C10")
 chk("C20", "model_checking",
     "Deferred.tla models lazy creation, callback bookkeeping and the closed typestate; TLC checks Lazy/OnceFiresOnce on the complete bounded behaviour tree; every behaviour is replayed on the real "
     "DeferredCarWriter with result, callback log and output bytes compared after every step, and the final output compared with a direct writer.",
-    "Exhaustive within: histories of 5 (6) operations over 8 operations, 5 configurations. " + TB,
+    "Exhaustive within: histories of 5 (6) operations over 8 operations, 8 configurations (incl. a pre-existing longer file at the path, explicit CARv2 on a stream). " + TB,
     "TLA+ state machine + TLC behaviours replayed on the real deferred writer", "DESIGN.md §3 C20")
 chk("C06", "fault_enumeration",
     "Every crash point (operation boundary and byte within every write) of recorded real sessions is materialised, reopened with the real resumption code, continued and finalized; TLC validates each "
@@ -67,7 +67,7 @@ chk("C06", "fault_enumeration",
     "recorded crash-point observations validated by TLC against a TLA+ relation; write-log trace validation against a TLA+ protocol spec", "DESIGN.md §3 C06")
 chk("C16", "fault_enumeration",
     "A transient write fault is injected at every write of a session and every persisted-byte count, followed by every continuation; TLC validates each observation against FaultObs!FaultSafe.",
-    "Exhaustive over fault points of 8 (16) storage sessions incl. a plain stream target. " + TB,
+    "Exhaustive over fault points of 8 (16) storage sessions incl. a plain stream target, and over kernel short writes (RLIMIT_FSIZE) at every file offset 0..699 of 6 blockstore sessions incl. PutMany batches. " + TB,
     "recorded fault-point observations validated by TLC against a TLA+ relation", "DESIGN.md §3 C16")
 chk("C08", "model_checking",
     "Conc.tla models the lock discipline (one action per critical-section boundary) and is model-checked for conflict freedom, linearizability, dedupe and termination; real executions are bound to it three ways: "
@@ -77,12 +77,12 @@ chk("C08", "model_checking",
 chk("C17", "model_checking",
     "ExtractFS.tla models the extractor step by step over a POSIX-like file system with symlink resolution; TLC checks containment on all bounded archives (and yields the symlink-then-file counterexample "
     "without the final-component guard); every archive is built as a real UnixFS DAG and extracted by the built car binary in a sandbox whose outside is snapshotted before/after.",
-    "Exhaustive within: <= 2 (3) top-level entries, 23 leaf entry kinds + directories, 4 pre-populated states, one/two roots. " + TB + " The kernel's path resolution.",
+    "Exhaustive within: <= 2 (3) top-level entries, 29 leaf entry kinds + directories, 4 pre-populated states, one/two roots; plus bare file roots over entries named `unknown` and 6 pre-populated states. " + TB + " The kernel's path resolution.",
     "TLA+ file-system model + TLC-enumerated hostile archives extracted by the real binary with snapshot comparison", "DESIGN.md §3 C17")
 chk("C18", "exploration",
     "Tree.tla gives the tree extraction must produce for each source tree and wrapping mode (RoundTrip checked by TLC); a seeded sample of the TLC-enumerated (tree, configuration) cases is run through the built "
     "car create / car root / car extract and compared entry by entry.",
-    "Model-generated cases, sampled (quick: 15% of 9k cases). Chunking/sharding are go-unixfsnode's. " + TB,
+    "Model-generated cases, sampled (quick: 15% of 16k cases; trees with a file whose bytes are another node's block are always run); source path spelled /abs, `.` or `dir/.`. Chunking/sharding are go-unixfsnode's. " + TB,
     "TLA+ tree model as case generator and oracle + real CLI round trip", "DESIGN.md §3 C18")
 chk("C19", "exploration",
     "Cli.tla defines every sub-command as an operator on abstract archives (filter with the store's de-duplication, append, index, list, get-block, concat) with closure predicates; all TLC-enumerated "
@@ -97,5 +97,5 @@ chk("C15", "model_checking",
 chk("C09", "exploration",
     "Parser.tla gives the scanner's termination/no-big-allocation argument (TLC, all token strings up to the bound) and the exact-limit matrix, which is run on every entry point; panics, hangs and allocation on "
     "arbitrary bytes are decided by executing field-aware mutations and random strings through all entry points in child processes.",
-    "Limit matrix exhaustive over entry points; byte-level part sampled (quick 11k inputs x 19 entry points, thorough ~1M). " + TB,
+    "Limit matrix exhaustive over entry points; byte-level part sampled (quick 11k inputs x 21 entry points, thorough ~1M). " + TB,
     "TLA+ scanner model + limit matrix replay + child-process fuzzing of all parsing entry points", "DESIGN.md §3 C09")
